@@ -101,6 +101,17 @@ def closure_renames(cur, base):
                     pairs[i_] = (c, b2)
                     left_b.remove(b2)
                     break
+        # third pass: a body that kept its index and is the only one of its kind left on both sides (the body of an `async fn` is
+        # always `{closure#0}`, however much of it was rewritten)
+        kind_of = lambda f: tuple(f["sig"][:2])
+        for i_, (c, b) in enumerate(pairs):
+            if b is not None:
+                continue
+            same_c = [c2 for c2, b2 in pairs if b2 is None and kind_of(cf[c2]) == kind_of(cf[c])]
+            same_b = [b2 for b2 in left_b if kind_of(bf[b2]) == kind_of(cf[c])]
+            if len(same_c) == 1 and len(same_b) == 1 and idx(same_b[0]) == idx(c):
+                pairs[i_] = (c, same_b[0])
+                left_b.remove(same_b[0])
         for c, b in pairs:
             if b is not None:
                 final = pb + b[len(pb):] if b.startswith(pb) else b
@@ -130,6 +141,7 @@ def reencoded_options(cur, base):
         if len(unit) != 1 or len(data) != 1:
             continue
         U, D, T = unit[0][0], data[0][0], data[0][1][0][1]
+        fname = data[0][1][0][0]       # "0" for a tuple variant, the field's name for `D { field }`
         opt = "std::option::Option<%s>" % T
         ev = False
         for A, bvs in base["adts"].items():
@@ -152,12 +164,13 @@ def reencoded_options(cur, base):
                     continue
                 bt = list(bf["sig"][3]) + [bf["sig"][4]]
                 ct = list(cf["sig"][3]) + [cf["sig"][4]]
-                if len(bt) == len(ct) and any(b == opt and c == E for b, c in zip(bt, ct)):
+                # (also inside another type: `Result<Option<T>, E>` -> `Result<NewEnum, E>`)
+                if len(bt) == len(ct) and any(b != c and opt in str(b) and str(b).replace(opt, E) == str(c) for b, c in zip(bt, ct)):
                     ev = True
                     break
         if ev:
             clash = sorted(A for A, avs in cur["adts"].items() if A != E and any(v[0] in (U, D) for v in avs))
-            out.append((E, U, D, T, clash))
+            out.append((E, U, D, T, clash, fname))
     return out
 
 
@@ -369,7 +382,7 @@ def load(cfg):
         rep["new_fns"] = rep2["new_fns"]
         rep["missing_fns"] = rep2["missing_fns"]
         rep["unresolved_after_aliasing"] = lines2
-    rep["options_under_another_name"] = ["%s { %s, %s(%s) }" % e[:4] for e in eopts]
+    rep["options_under_another_name"] = ["%s { %s, %s(%s) }" % tuple(e[:4]) for e in eopts]
     rep["renamed_items"] = ["%s (baseline: %s)" % (c, b) for c, b in items if "{closure#" not in c]
     rep["renumbered_closures"] = ["%s -> %s" % (c, b[b.rindex("::{closure#"):]) for c, b in items if "{closure#" in c]
     new = set(rep["new_fns"])
